@@ -2,6 +2,9 @@ use tokio::io::{self, AsyncRead, AsyncReadExt};
 
 use crate::gzi::Index;
 
+// The count comes from the input: use it as a capacity hint only up to this bound.
+const MAX_PREALLOCATED_LEN: usize = 1 << 16;
+
 pub(super) async fn read_index<R>(reader: &mut R) -> io::Result<Index>
 where
     R: AsyncRead + Unpin,
@@ -10,7 +13,7 @@ where
         usize::try_from(n).map_err(|e| io::Error::new(io::ErrorKind::InvalidData, e))
     })?;
 
-    let mut offsets = Vec::with_capacity(len);
+    let mut offsets = Vec::with_capacity(len.min(MAX_PREALLOCATED_LEN));
 
     for _ in 0..len {
         let compressed = reader.read_u64_le().await?;
